@@ -31,6 +31,10 @@ def gen_cases(tier):
             for D in gen.polys(N, maxterms, COEFS, offsets=OFFSETS):
                 yield {"kind": kind, "poly": rp.jdict(D), "tier": tier}
             yield {"kind": kind, "poly": rp.jdict({(): 4}), "tier": tier}
+            # scale slice: the same functions at very small and very large magnitudes (powers of two: exact)
+            for D in gen.polys(N, 2, (-2, 1, 3), offsets=(0,), minterms=1):
+                for sc in (2.0 ** -50, 2.0 ** 40):
+                    yield {"kind": kind, "poly": rp.jdict({k: v * sc for k, v in D.items()}), "tier": tier}
     return it
 
 
@@ -77,11 +81,12 @@ def check(case, st):
                     v("raises-" + r.kind, "raised %r" % r.exc)
                     continue
                 lo, hi = r
-                if lo > tmin + 1e-9:
+                eps = 1e-9 * max(abs(tmin), abs(tmax), 1e-300)
+                if lo > tmin + eps:
                     v("lo-above-min", "lo > true minimum %r" % tmin)
-                if hi < tmax - 1e-9:
+                if hi < tmax - eps:
                     v("hi-below-max", "hi < true maximum %r" % tmax)
-                if const and not (abs(lo - tmin) < 1e-9 and abs(hi - tmin) < 1e-9):
+                if const and not (abs(lo - tmin) <= eps and abs(hi - tmin) <= eps):
                     v("constant", "constant model must give lo = hi = %r" % tmin)
                 st.outcomes["tight" if (abs(lo - tmin) < 1e-9 and abs(hi - tmax) < 1e-9) else "loose"] += 1
             # anneal_temperature_range (quick tier: label schemes int/str/gap only)
@@ -109,7 +114,7 @@ def check(case, st):
 
 
 def run(ctx):
-    ctx.bounds = {"n": N, "coefs": COEFS, "offsets": OFFSETS, "max_terms": 3 if ctx.quick else 4, "flip_probabilities": PROBS,
+    ctx.bounds = {"n": N, "coefs": COEFS, "offsets": OFFSETS, "max_terms": 3 if ctx.quick else 4, "flip_probabilities": PROBS, "scale_slice": "<=2-term models scaled by 2^-50 and 2^40",
                   "containers": "all of DESIGN 2.4 + permuted raw dicts + raw dicts with repeated labels", "schemes": list(gen.LABELLED_SCHEMES)}
     ctx.rule = "case = (kind, polynomial); each is checked in every container x label scheme x function; non-trivial = at least two non-constant terms"
     ctx.assumptions = ["models are refreshed (anneal_temperature_range reads the cached variable set)"]
